@@ -33,6 +33,7 @@ RULE = (
     "differs from header order, or visor and inline members mixed."
     " Solaris 'X' extended headers; the archive object dropped before member data is read; a second process variant with debug logging on."
 )
+RULE += ' Round 10: stored names not in normal form; lookups by name compared with access by TarInfo; two readers on one unbuffered raw handle.'
 ASSUMPTIONS = [
     "visor headers are followed directly by the next header; file data of visor members lives behind the header area (with or "
     "without end-of-archive blocks in between) or, for aliased members, inside the inline data of an earlier ordinary member",
